@@ -23,3 +23,4 @@ import LyModel.Props.C09Compiled
 #print axioms LyModel.Props.C09.failed_op_restores_cores
 #print axioms LyModel.Props.C09.descOf_congr
 #print axioms LyModel.Props.C09.compiled_schema_restored_of_fresh
+#print axioms LyModel.Props.C09.compiled_untouched_before_compile
